@@ -2,7 +2,8 @@
 // through errgroup (PrepareProposalHandler, verifyEthBlockProposal). Threads are real
 // goroutines but exactly one runs at a time; scheduling points are thread start, thread
 // end and every module-store operation (the only accesses to shared logical state in
-// those bodies). Exploration is the iterative preemption-bounded DFS of Musuvathi/Qadeer.
+// those bodies); a controlled thread may fork a nested group, whose Wait() blocks it until the
+// members have finished. Exploration is the iterative preemption-bounded DFS of Musuvathi/Qadeer.
 package sched
 
 import (
@@ -19,6 +20,8 @@ type thread struct {
 	yielded chan bool // true = finished
 	done    bool
 	started bool
+	parent  *thread // the controlled thread that forked this one (nested group), nil for the top level
+	waiting bool    // inside Wait() of a nested group
 }
 
 // Point is one scheduling decision.
@@ -66,6 +69,9 @@ var Watchdog = 20 * time.Second
 func spawn(run func()) {
 	c := ctl
 	t := &thread{id: len(c.threads), run: run, resume: make(chan struct{}), yielded: make(chan bool)}
+	if c.inWait && c.current != nil {
+		t.parent = c.current // forked by the running controlled thread: a nested group
+	}
 	c.threads = append(c.threads, t)
 	go func() {
 		<-t.resume
@@ -85,25 +91,58 @@ func kvHook(op string, key []byte) {
 	<-t.resume
 }
 
+// blocked reports whether t sits in the Wait() of a nested group with unfinished members.
+func (c *controller) blocked(t *thread) bool {
+	if !t.waiting {
+		return false
+	}
+	for _, o := range c.threads {
+		if o.parent == t && !o.done {
+			return true
+		}
+	}
+	return false
+}
+
 func wait() {
 	c := ctl
 	if c == nil || len(c.threads) == 0 {
+		return
+	}
+	if c.inWait && c.current != nil {
+		// Wait() of a group forked by the running controlled thread: a blocking operation. The
+		// thread is not enabled again before all members of its group have finished.
+		t := c.current
+		t.waiting = true
+		for c.blocked(t) {
+			c.lastOp = "wait"
+			t.yielded <- false
+			<-t.resume
+		}
+		t.waiting = false
 		return
 	}
 	c.inWait = true
 	defer func() { c.inWait = false; c.current = nil; c.threads = nil }()
 	for {
 		var enabled []*thread
-		runningEnabled := c.current != nil && !c.current.done
+		runningEnabled := c.current != nil && !c.current.done && !c.blocked(c.current)
 		if runningEnabled {
 			enabled = append(enabled, c.current)
 		}
+		unfinished := 0
 		for _, t := range c.threads {
-			if !t.done && t != c.current {
+			if !t.done {
+				unfinished++
+			}
+			if !t.done && t != c.current && !c.blocked(t) {
 				enabled = append(enabled, t)
 			}
 		}
 		if len(enabled) == 0 {
+			if unfinished > 0 {
+				c.failed = "deadlock: every unfinished thread is blocked"
+			}
 			return
 		}
 		choice := 0
@@ -124,7 +163,13 @@ func wait() {
 		t := enabled[choice]
 		c.current = t
 		t.started = true
-		t.resume <- struct{}{}
+		select {
+		case t.resume <- struct{}{}:
+		case <-time.After(Watchdog):
+			c.failed = "watchdog: the chosen thread does not take over"
+			c.inWait = false
+			return
+		}
 		select {
 		case fin := <-t.yielded:
 			if fin {
